@@ -70,6 +70,16 @@ def make(name, args, kwargs):
 
 
 def raise_at_depth(e, d, cause=None):
+    # two alternating functions: the traceback formatter collapses runs of identical frames ("[Previous line repeated n more times]"),
+    # which would keep deep tracebacks short
+    if d <= 1:
+        if cause is not None:
+            raise e from cause  # SITE-MARK-C15 origin
+        raise e  # SITE-MARK-C15 origin
+    return _raise_at_depth_b(e, d - 1, cause)
+
+
+def _raise_at_depth_b(e, d, cause=None):
     if d <= 1:
         if cause is not None:
             raise e from cause  # SITE-MARK-C15 origin
